@@ -34,7 +34,7 @@ ASSUMPTIONS = [
     "difference there proves inequality, agreement does not prove equality and is then not used to demand ==)",
 ]
 MIN_MONITORS = {"pair": 20000, "eq-implies-hash": 20000, "eq-implies-same": 3000, "equal-by-construction": 6000,
-                "accessor-mutation": 15000, "pickle": 6000, "bls-pair": 4500, "bls-equal-sets": 1500, "expr-pair": 4000, "unchanged-after-pickling": 350, "accessor-first-read": 3000, "pickle-other-process": 1500}
+                "accessor-mutation": 15000, "pickle": 6000, "bls-pair": 4500, "bls-equal-sets": 1500, "expr-pair": 4000, "unchanged-after-pickling": 350, "accessor-first-read": 3000, "pickle-other-process": 1500, "foreign-operand": 20000, "wide-composite": 20}
 THOROUGH_MIN_SCALE = 8
 
 
@@ -330,6 +330,8 @@ def type_case(ctx, pydsdl, u, seed, text_first, workdir):
             pickle_contract(ctx, b, pydsdl, case)
             for f in b.fields[:3]:
                 pickle_contract(ctx, f, pydsdl, case)
+    foreign_operands(ctx, pydsdl, [x for x in A[:2]] + [f for a in A[:2] for f in a.attributes[:2]] + [f.data_type for a in A[:2] for f in a.attributes[:2]] +
+                     [a.bit_length_set for a in A[:1]] + [pydsdl.Rational(8), pydsdl.String("abc"), pydsdl.Boolean(True), pydsdl.Set([pydsdl.Rational(8)])], case)
     # all pairs within the universe: == must imply same class / str / exact set
     flat = []
     for i, a in enumerate(A):
@@ -639,6 +641,60 @@ def attr_case(ctx, pydsdl, rng):
     ctx.case(("attr", repr(case)), True, classes=["attribute-kinds-" + k])
 
 
+FOREIGN_OPERANDS = [None, 0, 8, 3.5, "", "abc", b"", [], [8], (), {}, set(), frozenset(), frozenset({8}), object(), Fraction(1, 2), True]
+
+
+def foreign_operands(ctx, pydsdl, objs, case):
+    """== / != between a model object and something of another class answer (False or, by documented convenience, True); they never raise."""
+    for o in objs:
+        for f in FOREIGN_OPERANDS + [x for x in objs if type(x) is not type(o)][:6]:
+            ctx.mon("foreign-operand")
+            try:
+                r1, r2, r3 = (o == f), (f == o), (o != f)
+                if not all(isinstance(r, bool) for r in (r1, r2, r3)) or r1 != r2 or r3 == r1:
+                    ctx.violation("C18/foreign-operand", "%r (%s) compared with %r (%s): ==: %r, reflected: %r, !=: %r" % (
+                        o, type(o).__name__, f, type(f).__name__, r1, r2, r3), case)
+            except Exception as ex:  # noqa
+                ctx.violation("C18/foreign-operand", "comparing %s %r with %s %r raised %r" % (type(o).__name__, o, type(f).__name__, f, ex), case)
+
+
+def wide_case(ctx, pydsdl, rng, workdir):
+    """
+    Composites with many fields (the operators of the bit length set nest a few levels per field): equality, hash and the
+    pickle round trip are part of the contract for them as for any other composite.
+    """
+    n = rng.choice([40, 80, 110, 150, 300])
+    kind = rng.choice(["struct", "struct", "union"])
+    lines = (["@union"] if kind == "union" else []) + ["%s w%d" % (rng.choice(["uint8", "uint16[<=2]", "bool", "float32", "int7[3]"]), i) for i in range(n)]
+    text = "\n".join(lines) + rng.choice(["\n@sealed\n", "\n@extent %d\n" % (64 * n)])
+    d = workdir / "wide"
+    shutil.rmtree(d, ignore_errors=True)
+    (d / "widens").mkdir(parents=True)
+    (d / "widens" / "Wide.1.0.dsdl").write_text(text)
+    case = {"wide": n, "kind": kind, "text_head": text[:80]}
+    try:
+        a = pydsdl.read_namespace(d / "widens", [])[0]
+        b = pydsdl.read_namespace(d / "widens", [])[0]
+    finally:
+        shutil.rmtree(d, ignore_errors=True)
+    ctx.mon("wide-composite")
+    if pair_contract(ctx, a, b, "wide composite", case) is not True:
+        ctx.violation("C18/equal-descriptions-unequal", "a composite of %d fields read twice is not equal to itself" % n, case)
+    ctx.mon("pickle")
+    for obj, what in ((a, "composite"), (a.bit_length_set, "bit length set")):
+        try:
+            obj2 = pickle.loads(pickle.dumps(obj))
+        except RecursionError:
+            ctx.violation("C18/pickle-fails/recursion-depth", "a %s of a composite with %d fields cannot be pickled: RecursionError" % (what, n), case)
+            continue
+        except Exception as ex:  # noqa
+            ctx.violation("C18/pickle-fails", "%s of a composite with %d fields cannot be pickled: %r" % (what, n, ex), case)
+            continue
+        if safe_eq(obj, obj2) is not True or hash(obj) != hash(obj2):
+            ctx.violation("C18/pickle-eq", "pickle round trip of a wide %s is not equal / hash-equal" % what, case)
+    ctx.case(("wide", n, kind), True, classes=["wide-composite-%d" % n])
+
+
 def value_spec(rng, kinds=("rat", "rat", "bool", "str", "set", "set")):
     k = rng.choice(kinds)
     if k == "rat":
@@ -768,6 +824,12 @@ def run_shard(ctx):
         expr_case(ctx, pydsdl, rng)
     for _ in range(ctx.share(ctx.params["n_expr"]) // 4):
         attr_case(ctx, pydsdl, rng)
+    for _ in range(max(2, ctx.share(ctx.params["n"]) // 20)):
+        try:
+            with ctx.watchdog(120):
+                wide_case(ctx, pydsdl, rng, ctx.tmp)
+        except CaseTimeout:
+            ctx.inconclusive_case("watchdog (wide composite)")
     ctx.notes["list_accessors"] = {c.__name__: list_accessors(c) for c in (pydsdl.StructureType, pydsdl.UnionType, pydsdl.DelimitedType, pydsdl.ServiceType)}
 
 
